@@ -130,6 +130,9 @@ def handle (st : St) : Toks → IO St
   | "scate" :: ts => answer st ts do
       let d ← pF; let e ← pF; let ats ← pAtoms
       pure (showOutcome (neutronScatteringE st.tbl ats d e))
+  | "scatd" :: ts => answer st ts do
+      let d ← pF; let ats ← pAtoms
+      pure (showOutcome (neutronScatteringDefault st.tbl ats d))
   | "scatv" :: ts => answer st ts do
       let d ← pF; let ws ← pFloats; let ats ← pAtoms
       match neutronScatteringV st.tbl ats d ws with
